@@ -30,6 +30,8 @@ def sets_for(tier, seed):
         s.append(("roots-d2", K("ROOTS", 2, 0, lemmas=1), "bfs", None))
         s.append(("epw-d", K("EPw", 2, 4, lemmas=1), "bfs", None))
         s.append(("epb-e", K("EPb", 2, 5, lemmas=1), "bfs", None))
+        s.append(("epallw", K("EPALLw", 2, 0, lemmas=1), "bfs", None))
+        s.append(("epallb", K("EPALLb", 2, 0, lemmas=1), "bfs", None))
         s.append(("epxw-d", K("EPXw", 1, 4), "bfs", None))
         s.append(("epxb-e", K("EPXb", 1, 5), "bfs", None))
         s.append(("castle-1", K("CASTLE", 1, 1), "bfs", None))
@@ -48,8 +50,10 @@ def sets_for(tier, seed):
         s.append(("roots-d3", K("ROOTS", 3, 0, lemmas=1), "bfs", None))
         s.append(("epw", K("EPw", 3, 0, lemmas=1), "bfs", None))
         s.append(("epb", K("EPb", 3, 0, lemmas=1), "bfs", None))
-        s.append(("epxw", K("EPXw", 2, 0), "bfs", None))
-        s.append(("epxb", K("EPXb", 2, 0), "bfs", None))
+        s.append(("epallw", K("EPALLw", 3, 0, lemmas=1), "bfs", None))
+        s.append(("epallb", K("EPALLb", 3, 0, lemmas=1), "bfs", None))
+        s.append(("epxw", K("EPXw", 1, 0), "bfs", None))
+        s.append(("epxb", K("EPXb", 1, 0), "bfs", None))
         s.append(("castle", K("CASTLE", 2, 0), "bfs", None))
         s.append(("pinw", K("PINw", 1, 0, lemmas=1), "bfs", None))
         s.append(("pinb", K("PINb", 1, 0, lemmas=1), "bfs", None))
@@ -186,6 +190,13 @@ def check(prop, tier):
         tv["distinct"] = sum(r["distinct"] for r in results)
         shutil.rmtree(outdir, ignore_errors=True)
     cnt = rep["counters"]
+    # non-vacuity: the run must have met the features the properties talk about
+    if cnt:
+        missing = [k for k in ("castling_moves", "en_passant_captures", "promotion_moves", "states_in_double_check", "states_with_pins",
+                               "checkmates", "stalemates", "transposition_arrivals", "states_with_en_passant", "edges_with_en_passant_dont_care")
+                   if cnt.get(k, 0) == 0]
+        if missing:
+            raise C.ToolError("vacuous run: no %s among the explored states" % ", ".join(missing))
     exhaustive_sets = [n for (n, _, m) in sets if m["mode"] == "bfs"]
     coverage = {
         "states": sum(m["tlc_distinct_states"] for (_, _, m) in sets) + tv["distinct"],
